@@ -358,6 +358,9 @@ func (x *Exec) loopContract(fr *Frame, li *loopInfo) *LoopContract {
 // Returns false if the path ends here.
 func (x *Exec) loopEnter(st *State, fr *Frame, li *loopInfo, from *ssa.BasicBlock) bool {
 	lc := x.loopContract(fr, li)
+	if x.partialMode && !x.partialLoops {
+		st.looped = true // `partial`: loop invariants are not checked, so nothing behind a loop is precise
+	}
 	tagFn := fmt.Sprintf("loop%d", li.ord)
 	al := &activeLoop{li: li}
 	// 1. invariants hold on entry
